@@ -5,6 +5,9 @@
       the Process object is built on table `mk`, optionally `is_running()` is called on `mid`,
       `_LOWEST_PID` is `lowest`, then `call` runs: identity check + ppid_map() on `t0`, every
       later look-up on `t1` (default `t0`).
+      The answer is a function of these tables only: whatever psutil calls ran earlier in the
+      interpreter (`process_iter()` filling `psutil._pmap`, …) are deliberately NOT part of the
+      driver's input, so an implementation whose result depends on them disagrees with `spec`.
    {"op":"stat","pid":n,"comm":hex,"state":hex,"ppid":n,"start":n,"pre":[hex…],"post":[hex…]}
       renders the stat line (kernel format) and reads it back with both readers.
 -/
@@ -40,7 +43,11 @@ def jOut {α : Type} (f : α → List (String × Json)) : Out α → Json
   | .indexError => jExc "IndexError" none
   | .diverged => jObj [("kind", "diverged")]
 
-def jPids (l : List Nat) : List (String × Json) := [("pids", jList jNat (sortNat l))]
+/-- children results: every returned `Process` object as `[pid, start]`, where `start` is the start
+    time of the incarnation that owns the PID when it is examined (`look pid`) — the object must
+    describe the process listed NOW, whatever psutil has cached from earlier calls -/
+def jProcs (look : Look) (l : List Nat) : List (String × Json) :=
+  [("procs", jList (fun c => Json.arr #[jNat c, jOpt jNat (look c)]) (sortNat l))]
 def jParent (o : Option Row) : List (String × Json) := [("parent", jOpt jRow o)]
 def jChain (l : List Row) : List (String × Json) := [("chain", jList jRow l)]
 
@@ -84,9 +91,9 @@ def handleTree (j : Json) : R Json := do
     let sat := Spec.descSat links look me.ctime pid
     let isClosed := Spec.closed links look me.ctime pid sat
     let sp := if dead then nspJ
-      else if recursive then jObj (("kind", "ok") :: jPids (Spec.descList links look me.ctime pid))
-      else jObj (("kind", "ok") :: jPids (Spec.childList links look me.ctime pid))
-    return jObj [("model", jOut jPids m), ("spec", sp), ("running", jrun), ("flags", flags),
+      else if recursive then jObj (("kind", "ok") :: jProcs look (Spec.descList links look me.ctime pid))
+      else jObj (("kind", "ok") :: jProcs look (Spec.childList links look me.ctime pid))
+    return jObj [("model", jOut (jProcs look) m), ("spec", sp), ("running", jrun), ("flags", flags),
       ("closed", Json.bool (isClosed || !recursive))]
   else if call == "parent" then
     let m := (parent cfg ps t0 me).2.2
